@@ -18,19 +18,19 @@ TEXT = {
  'C04': 'theorems about the scope stack of the model: lookup after declare, shadowing, innermost assignment, frame of other names and scopes, undeclared is an error, nil initialisation',
  'C05': 'theorems about call frames of the model: positional binding (missing nil, surplus unevaluated); for every expression, with calls nested to any depth, on every well-formed machine over parser-producible code: the caller\'s position, scope height, loop stack, loop base and return stack are exactly restored; the frame invariant holds at every statement of a body',
  'C06': 'theorems about the arenas of the model: indexed write then read agree, every other cell unchanged, fresh address for concatenation results',
- 'C07': 'theorems, for every heap and scope stack (any sharing, cycles, list<->record nesting): the mark phase marks exactly the reachable containers; a collection is total, keeps every reachable container unchanged, preserves reachability and well-formedness, and leaves no reachable slot on a free list, so the allocator never hands out live storage',
- 'C08': 'theorems: one collection empties every unreachable container (unreachable cycles included) and lists it exactly once on the free list; the allocator takes from the free list whenever it is non-empty and grows the arena by one slot otherwise; every allocation advances the counter; the native trigger fires exactly at the threshold read from the source',
+ 'C07': 'theorems: for every program the front end accepts, every fuel and world, ANY two collection schedules (none, the native allocation-counter trigger, a collection at every boundary, any pattern) give the same output, final world and result (C07_any_collection_schedule_is_invisible: lock-step simulation of the two runs through a partial bijection of container addresses, through every expression form, built-in, statement and call depth; a collection on either side keeps the machines related); and for every heap and scope stack (any sharing, cycles, list<->record nesting): the mark phase marks exactly the reachable containers; a collection is total, keeps every reachable container unchanged, preserves reachability and well-formedness, and leaves no reachable slot on a free list, so the allocator never hands out live storage. Native stack exhaustion (OutOfFuel in the model) on either run is excluded from the schedule theorem',
+ 'C08': 'theorems: one collection empties every unreachable container (unreachable cycles included) and lists it exactly once on the free list; the allocator takes from the free list whenever it is non-empty and grows the arena by one slot otherwise; every allocation advances the counter; the native trigger fires exactly at the threshold read from the source; and for whole runs (C08_heap_bounded_at_every_boundary): allocation accounting through every statement and call (free lists only shrink, an arena grows only once its free list is empty, every slot is paid for by the counter), after a collection the occupied slots are at most the reachable containers, hence at every statement boundary of every accepted program both arenas are at most R + threshold + A long, where R bounds the containers reachable at boundaries and A the allocation of one top-level statement -- independent of the number of statements or loop iterations executed',
  'C09': 'theorems about the number model: digit tables are the intended bijections (regenerated from the source), printed text has the shape -?D+(.D+)? for finite values, infinities and NaN are unprintable',
  'C10': 'theorems, for every source and file name: tokenize never panics, never exhausts its computed fuel (termination), fails only with a syntax error located in that file, allocates at most length+1 tokens; spans and line numbers account for every non-blank character',
- 'C11': 'theorems about the lexer model: blanks between tokens produce no token and only newlines move line numbers; comments are single tokens the parser drops',
+ 'C11': 'theorems about the lexer model: blanks between tokens produce no token and only newlines move line numbers; comments are single tokens the parser drops; and about the machine (C11_only_reported_positions_move): two statement vectors that differ only in line/file metadata run alike -- same output, world and result, errors of the same kind at the mapped position -- for every program, fuel, world and schedule',
  'C12': 'theorems about the parser model: no panic for any token list, file map and fuel; every successful sub-parse consumes at least one token (no zero-progress loop); the produced statement vector is well formed (records have as many values as keys, one end marker, last)',
  'C13': 'theorems about the machine model: whatever the front end accepts runs without a panic for every fuel, collection schedule and world (machine invariant + frame invariant, induction over all steps); every error value carries the output written so far; the listed faults are errors located at the current statement; _এরর(m) reports exactly m; the error kind/line per fault position and the exit status are covered by the faults and cli streams',
- 'C14': 'theorems about the renaming of imported tokens: exactly identifiers that are not built-ins are prefixed, injectively, so prefixed and unprefixed names never collide',
+ 'C14': 'theorems about the renaming of imported tokens (exactly identifiers that are not built-ins are prefixed, injectively, so prefixed and unprefixed names never collide) and about behaviour (C14_qualified_module_code_behaves_like_the_original): a statement vector whose names are qualified by any alias, with any line/file metadata, runs exactly like the original -- same output, world and result, errors of the same kind at the mapped position -- for every program, fuel, world and pair of collection schedules (generalised simulation: injective renaming that fixes built-in names)',
  'C15': 'theorems about the loader model: an import of a file on the current import chain is rejected with the cyclic-dependency error before its tokens are read',
  'C16': 'theorems: each list built-in of the model computes the corresponding sequence operation on exactly the addressed list and leaves every other list unchanged; invalid positions are errors that leave the heap unchanged',
  'C17': 'theorems: join sep (split s sep) = s for every string and non-empty separator; split by the empty string yields the characters; the seven type names are pairwise distinct',
  'C18': 'theorems about the renderer of the model: output only grows, and only print statements extend it',
- 'C19': 'theorems about the top-level boundary of the machine model',
+ 'C19': "theorems: C19_fragments_compose -- from any machine state at the first statement of P2 whose control stacks are neutral and whose global scope binds none of the names P2 mentions (whatever variables, functions, containers, free lists, garbage, counters and output P1 left), the run of P1;P2 and the run of P2 alone from the initial state end alike under any schedules: output of P2 alone after what had been written, same world, errors of the same kind at the shifted position; plus step laws showing the control stacks are neutral at top level after conditionals, returns, breaks and discarded containers. That P1's run arrives at such a state is covered by the compose stream",
  'C20': 'theorems about the file-map model of the file built-ins: write then read returns the text, delete then read is an error, created directories are directories',
 }
 
@@ -48,8 +48,8 @@ def main():
                 'replay_cmd_template': './check --replay {path}',
                 'engine': 'coq-model',
                 'level_claimed': {'category': 'proof',
-                                  'text': 'Machine-checked ' + TEXT[pid] + '. The model is tied to /repo on every run by the table translator (tables regenerated from the source and the theorems re-checked against them) and by the differential correspondence streams of this property (implementation vs. extracted model), which are also the failing-input search. What is proved and what is only tested is listed per property in DESIGN.md, Amendment A.3.',
-                                  'design_ref': 'DESIGN.md section 7 and Amendment A.3, ' + pid},
+                                  'text': 'Machine-checked ' + TEXT[pid] + '. The model is tied to /repo on every run by the table translator (tables regenerated from the source and the theorems re-checked against them) and by the differential correspondence streams of this property (implementation vs. extracted model), which are also the failing-input search. What is proved and what is only tested is listed per property in DESIGN.md, Amendments A.3 and B.',
+                                  'design_ref': 'DESIGN.md section 7, Amendment A.3 and Amendment B, ' + pid},
                 'level_note': DEFAULT_NOTE,
                 'technique': 'Coq proof on a Gallina model + translator-regenerated tables + differential correspondence (extracted model vs. implementation)',
             })
